@@ -6,10 +6,11 @@ from .. import build
 from ..core import Result, viol
 
 ID = 'C19'
-RULE = ('cases = generated schedules: a worker function of a generated kind {returns a value, raises one of 8 exception types '
+RULE = ('cases = generated schedules: a worker function of a generated kind {returns a value, raises one of 13 exception types '
         'with arguments, swallows the first injected interrupt and continues for tau, blocks in native sleep, retries in a '
         'broad except-Exception loop, nested run_timeout with inner limit above/below the inner duration} whose completion '
-        'is set to limit + delta, delta on a dense grid around 0 (+/- 1..60 ms) and far values, each repeated; followed by a '
+        'is set to limit + delta, delta on a dense grid around 0 (+/- 1..60 ms) and far values, each repeated, limits 40-120 '
+        'ms plus 400-500 ms limits with completion >= 300 ms early (every exception type: decidedly in time); followed by a '
         'back-to-back fast call; all 16 shards run concurrently on purpose (load); oracle = outcome trichotomy (value only '
         'if the function returned it, own exception with type and args only if it raised it, otherwise TimeoutError; a '
         'function that finished >= 150 ms before the limit must not time out), the calling thread sees no stray '
